@@ -314,7 +314,7 @@ func colourVariant(t TB, prop, check string, c any, spec EncSpec, plain [][]bool
 	case 4: // a caller-defined colour type and *image.Uniform
 		spec.Scheme = &SchemeSpec{Model: "rgba", FG: ColorSpec{Model: "custom", V: [4]uint16{0, 0, 0, 65535}}, BG: ColorSpec{Model: "uniform", V: [4]uint16{255, 255, 255, 255}}}
 	default:
-		spec.Scheme = &SchemeSpec{Predefined: 1 + int(h>>2)%4}
+		spec.Scheme = &SchemeSpec{Predefined: 1 + int((h>>2)%4)}
 	}
 	bc, err, pv := encodeSpec(spec)
 	if pv != nil {
